@@ -461,7 +461,10 @@ func (c *SCIONClient) measureClockOffsetSCION(ctx context.Context, mtrcs *scionC
 			tsOpt, err := e2eLayer.FindOption(scion.OptTypeTimestamp)
 			if err == nil {
 				cRxTime0, err := udp.TimestampFromOOBData(tsOpt.OptData)
-				if err == nil {
+				// the option is written by the end-host forwarder on this host between the
+				// transmission of the request and the arrival at this socket; any other
+				// value is not a receive time (t3 < t0 would panic further down)
+				if err == nil && !cRxTime0.Before(cTxTime1) && !cRxTime0.After(cRxTime) {
 					cRxTime = cRxTime0
 				}
 			}
